@@ -37,7 +37,8 @@ static int fid(cstl_hash_func_t *f) { return f == NULL ? F_NULL : f == h0 ? F_H0
 static int m_member[MAXN], m_count;
 static int m_resized;                 /* the table has buckets */
 static size_t m_nreq; static int m_freq;   /* most recently requested bucket count / function (F_MUL if none ever) */
-static int m_forced_settled;          /* a forced rehash (rehash()/foreach()) happened after the last effective resize request */
+static int m_forced_settled;
+static int m_budget, m_since;          /* a pending rehash must finish within as many keyed operations as there were buckets: budget (or -1), operations so far */          /* a forced rehash (rehash()/foreach()) happened after the last effective resize request */
 
 enum { O_INSERT = 1, O_ERASE, O_FIND, O_RESIZE, O_REHASH, O_SHRINK, O_SWAP, O_FOREACH, O_FOREACH_STOP, O_FOREACH_ERASE, O_CLEAR_CB, O_CLEAR_NULL, O_RESIZE0 };
 #define OP(c, a, b) ((mc_op_t)((c) | ((a) << 8) | ((b) << 16)))
@@ -111,7 +112,7 @@ static void w_init(void)
     __asan_unpoison_memory_region(pool, sizeof pool);
     memset(pool, 0x5A, sizeof pool);
     for (i = 0; i < N; i++) { pool[i].idx = i; pool[i].pad = 0x1111; pool[i].tail = 0x2222; pool[i].hn.key = (size_t)keys[i]; pool[i].hn.next = NULL; m_member[i] = 0; }
-    m_count = 0; m_resized = 0; m_nreq = 0; m_freq = F_MUL; m_forced_settled = 1; cur = 0;
+    m_count = 0; m_resized = 0; m_nreq = 0; m_freq = F_MUL; m_forced_settled = 1; cur = 0; m_budget = -1; m_since = 0;
     for (t = 0; t < 2; t++) { memset(&TB[t], 0xA5, sizeof TB[t]); cstl_hash_init(&TB[t], offsetof(struct elem, hn)); }
 }
 #define T (&TB[cur])
@@ -284,6 +285,7 @@ static void keyed_post(const char *what, int own_elem)
     }
     MC_COUNT(K_KEYED_PENDING);
     if (!post.pending) MC_COUNT(K_FINISHING_OP);
+
     /* (c) pending: nodes that changed bucket came from at most three buckets; at least one dirty bucket cleaned or finished */
     for (i = 0; i < N; i++) {
         int k2;
@@ -365,7 +367,7 @@ static void w_apply(mc_op_t o)
         if (n == 0) break;                                    /* documented: does nothing */
         {
             int newf = f != F_NULL ? f : m_freq;              /* NULL keeps the function most recently requested; cstl_hash_mul if none ever */
-            if (!m_resized || n != m_nreq || newf != m_freq) m_forced_settled = !m_resized;
+            if (!m_resized || n != m_nreq || newf != m_freq) { m_forced_settled = !m_resized; m_budget = T->bucket.rh.hash != NULL ? (int)T->bucket.count : -1; m_since = 0; }
             m_nreq = n; m_freq = newf; m_resized = 1;
         }
         SHIM_CALL(ab, ld = cstl_hash_load(T));
@@ -427,9 +429,18 @@ static void w_apply(mc_op_t o)
         MC_CHECK(PC04, shim_nlive() == 0, "clear left %d allocation(s) of the table alive", shim_nlive());
         if (mc_checking && !mc_branch_dead) probe_reusable();
         for (i = 0; i < N; i++) m_member[i] = 0;
-        m_count = 0; m_resized = 0; m_nreq = 0; m_freq = F_MUL; m_forced_settled = 1;
+        m_count = 0; m_resized = 0; m_nreq = 0; m_freq = F_MUL; m_forced_settled = 1; m_budget = -1; m_since = 0;
         break;
     }
+    }
+    if (!ab) {
+        /* bounded completion: a pending rehash must be over after as many keyed operations as the table had buckets when it started */
+        int keyed = OC(o) == O_INSERT || OC(o) == O_ERASE || OC(o) == O_FIND;
+        if (keyed && m_budget >= 0) {
+            m_since++;
+            MC_CHECK(PC19, T->bucket.rh.hash == NULL || m_since < m_budget, "the rehash is still pending after %d keyed operations although the table had only %d buckets when it started", m_since, m_budget);
+        }
+        if (T->bucket.rh.hash == NULL) { m_budget = -1; m_since = 0; }
     }
     if (ab) MC_CHECK(PALL, 0, "unexpected %s inside the library: %s", ab == 2 ? "assertion failure" : "abort()", ab == 2 ? shim_assert_msg : "");
     else if (mc_checking) {
@@ -491,6 +502,7 @@ static void w_canon(void)
     KB_C('c'); KB_U((unsigned)cur); canon_one(0); canon_one(1);
     KB_C('m'); KB_U(m_nreq); KB_C('f'); KB_U((unsigned)m_freq); KB_C(m_forced_settled ? 's' : 'u'); KB_C(m_resized ? 'R' : '-');
     { int i; for (i = 0; i < N; i++) KB_C(m_member[i] ? '1' : '0'); }
+    if (m_budget >= 0) { KB_C('B'); KB_U((unsigned)m_budget); KB_C('.'); KB_U((unsigned)m_since); }
 }
 static void w_opname(mc_op_t o, char *b, size_t n)
 {
